@@ -532,9 +532,10 @@ class SFrame:
         if name == "itertuples":
             def itertuples(it_, index=True, name="Pandas"):
                 rows = []
+                names = (["Index"] if index else []) + list(self.cols.keys())
                 for r in range(self.n):
                     t = tuple(v[r] for v in self.cols.values())
-                    rows.append(((self.labels[r],) + t) if index else t)
+                    rows.append(_NamedRow(((self.labels[r],) + t) if index else t, names))
                 return rows
             return Handler(itertuples, "DataFrame.itertuples")
         if name == "to_dict":
@@ -616,6 +617,28 @@ class SFrame:
         if not d:
             cols = {"index": list(self.labels), **cols}
         return SFrame(cols, list(range(self.n)))
+
+
+class _NamedRow(tuple):
+    """A row of DataFrame.itertuples(): a tuple whose fields can also be read by column name."""
+
+    _pyvc_symbolic = True
+
+    def __new__(cls, vals, names):
+        o = super().__new__(cls, vals)
+        o._names = list(names)
+        return o
+
+    def _pyvc_getattr(self, it, name):
+        if name in self._names:
+            return self[self._names.index(name)]
+        raise PyRaise(AttributeError, (name,))
+
+    def _pyvc_iter(self, it):
+        return list(self)
+
+    def _pyvc_len(self, it):
+        return len(self)
 
 
 class _Columns:
